@@ -485,6 +485,128 @@ def P2(m, R):
             '; '.join(bad[:3]) + (' (+%d more)' % (len(bad) - 3) if len(bad) > 3 else ''), construct=cons)
 
 
+def _valid_by_regex(m, F, R, f, cons):
+    """`valid` decided with a regular expression: <compiled>.search / match / fullmatch(self.<text>) (or re.<method>(pattern, text)).  The
+    pattern is folded and parsed; decided forms: a single character class searched for (valid = no hit), or a repeated complement
+    class matched against the whole text (valid = hit).  Returns True when a verdict (or an undecided note) was recorded."""
+    import re as _re
+    import re._parser as _sp
+    import re._constants as _sc
+    calls = []
+    for n in f.walk():
+        if isinstance(n, ast.Call) and isinstance(n.func, ast.Attribute) and n.func.attr in ('search', 'match', 'fullmatch', 'findall', 'finditer'):
+            recv = n.func.value
+            pat_node, subj = None, None
+            if isinstance(recv, ast.Name) and recv.id == 're' and len(n.args) >= 2:
+                pat_node, subj = n.args[0], n.args[1]
+            elif isinstance(recv, ast.Name) and n.args:
+                cn = m.const('ansi_format', recv.id)
+                if cn is not None and isinstance(cn, ast.Call) and call_name(cn) == 'compile' and cn.args:
+                    pat_node, subj = cn.args[0], n.args[0]
+                    if len(cn.args) > 1 or cn.keywords:
+                        pat_node = None      # flags: not interpreted
+            if pat_node is not None:
+                calls.append((n, pat_node, subj))
+    if len(calls) != 1:
+        return False
+    call, pat_node, subj = calls[0]
+    meth = call.func.attr
+    if not re.match(r'^self\.\w+$', norm(subj)):
+        R.undecided(f, call, 'the regular expression is applied to %s, not to the setting text' % short(subj), construct=cons)
+        return True
+    try:
+        pat = F.fold(pat_node)
+    except Unfoldable:
+        pat = None
+    if not isinstance(pat, str):
+        R.undecided(f, call, 'pattern %s could not be folded' % short(pat_node), construct=cons)
+        return True
+    try:
+        items = list(_sp.parse(pat))
+    except Exception:
+        R.undecided(f, call, 'pattern %r does not parse' % pat, construct=cons)
+        return True
+
+    def class_of(av):
+        """code points of an IN item -> (set, negated)"""
+        neg = False
+        pts = set()
+        for op, a in av:
+            if op is _sc.NEGATE:
+                neg = True
+            elif op is _sc.LITERAL:
+                pts.add(a)
+            elif op is _sc.RANGE:
+                pts |= set(range(a[0], a[1] + 1))
+            else:
+                return None, None
+        return pts, neg
+    want = set(range(0x40, 0x7F))
+    # how the match result becomes the verdict
+    par = getattr(call, '_parent', None)
+    pol = None          # True: valid = there is a match; False: valid = there is none
+    if isinstance(par, ast.Compare) and len(par.ops) == 1 and par.left is call and const_val(par.comparators[0], 0) is None:
+        pol = isinstance(par.ops[0], ast.IsNot) if isinstance(par.ops[0], (ast.Is, ast.IsNot)) else None
+        top = par
+    elif isinstance(par, ast.UnaryOp) and isinstance(par.op, ast.Not):
+        pol, top = False, par
+    elif isinstance(par, ast.Call) and call_name(par) == 'bool':
+        pol, top = True, par
+    else:
+        top = None
+    if pol is None or top is None:
+        R.undecided(f, call, 'how the match result decides validity is not recognised', construct=cons)
+        return True
+    holder = getattr(top, '_parent', None)
+    if isinstance(holder, ast.UnaryOp) and isinstance(holder.op, ast.Not):
+        pol, holder = not pol, getattr(holder, '_parent', None)
+    if not isinstance(holder, (ast.Assign, ast.Return)):
+        R.undecided(f, call, 'the verdict %s is not stored or returned directly' % short(top), construct=cons)
+        return True
+    kind = None
+    if len(items) == 1 and items[0][0] is _sc.IN:
+        pts, neg = class_of(items[0][1])
+        kind = ('class', pts, neg)
+    elif len(items) == 1 and items[0][0] is _sc.MAX_REPEAT and items[0][1][0] == 0 and items[0][1][1] is _sc.MAXREPEAT and len(items[0][1][2]) == 1 and \
+            list(items[0][1][2])[0][0] is _sc.IN:
+        pts, neg = class_of(list(items[0][1][2])[0][1])
+        kind = ('star', pts, neg)
+    if kind is None or kind[1] is None:
+        R.undecided(f, call, 'pattern %r is not a single character class (or a repeated one)' % pat, construct=cons)
+        return True
+    _, pts, neg = kind
+    if kind[0] == 'class' and not neg and not pol:
+        # valid = no character of the class is found
+        if meth == 'search':
+            R.check(pts == want, f, call, 'valid iff no character of [0x40,0x7E] occurs anywhere in the text (regex search)',
+                    'the searched class is %s, the final-byte range is 0x40..0x7E' % _fmt_class(pts), construct=cons)
+        elif meth in ('match', 'fullmatch'):
+            R.viol(f, call, '%s.%s() looks at the start of the text only: a final byte (0x40..0x7E) after the first character -- "31mX", "1;4H" -- is not seen and the '
+                            'setting is reported valid' % (short(call.func.value), meth), construct=cons)
+        else:
+            R.undecided(f, call, 'method %s' % meth, construct=cons)
+        return True
+    if kind[0] == 'star' and neg and pol and meth == 'fullmatch':
+        R.check(pts == want, f, call, 'valid iff the whole text consists of characters outside [0x40,0x7E] (regex fullmatch)',
+                'the excluded class is %s, the final-byte range is 0x40..0x7E' % _fmt_class(pts), construct=cons)
+        return True
+    R.undecided(f, call, 'regex form (%s of %r, verdict = %s) not interpreted' % (meth, pat, 'match' if pol else 'no match'), construct=cons)
+    return True
+
+
+def _fmt_class(pts):
+    if not pts:
+        return 'empty'
+    xs = sorted(pts)
+    runs, a = [], xs[0]
+    for i, x in enumerate(xs):
+        if i + 1 == len(xs) or xs[i + 1] != x + 1:
+            runs.append('0x%02X..0x%02X' % (a, x) if a != x else '0x%02X' % a)
+            if i + 1 < len(xs):
+                a = xs[i + 1]
+    return ', '.join(runs)
+
+
 @rule('F1', 'term-range: the byte classes of AnsiSetting.valid and of the tokenizer are exactly [0x40, 0x7E]', floor=2)
 def F1(m, R):
     F = get_folder(m)
@@ -496,7 +618,9 @@ def F1(m, R):
     from ..shapes import reject_predicate, local_aliases
     from ..shapes import subst as _subst2
     rp = reject_predicate(f)
-    if rp is None:
+    if rp is None and _valid_by_regex(m, F, R, f, cons):
+        pass
+    elif rp is None:
         R.undecided(f, f.node, 'per-character rejection not found', construct=cons)
     else:
         class _LP:
